@@ -74,6 +74,74 @@ def _delegations(fn):
     return out
 
 
+def _generated_overrides(ix, mod, cls_name):
+    """overrides installed after the class body from a table of names:
+           for n in NAMES: setattr(Cls, n, factory(n))        /        setattr(Cls, "m", factory("m"))        /    Cls.m = factory("m")
+       -> {name: (FuncInfo of the function the factory returns, factory parameter that carries the method name)}"""
+    from ..index import const_eval
+
+    out = {}
+
+    def table(expr):
+        if isinstance(expr, ast.Name) and expr.id in mod.constants and len(mod.constants[expr.id]) == 1:
+            expr = mod.constants[expr.id][0].value
+        try:
+            v = const_eval(expr)
+        except (ValueError, TypeError):
+            return None
+        return [x for x in v if isinstance(x, str)] if isinstance(v, (list, tuple, set, frozenset)) else None
+
+    def made_by(call):
+        """(inner FuncInfo, name parameter) when `call` is factory(<the name>) of a module function returning a nested def"""
+        if not (isinstance(call, ast.Call) and isinstance(call.func, ast.Name) and call.func.id in mod.functions and len(call.args) == 1):
+            return None
+        fac = mod.functions[call.func.id]
+        inner_nodes = {id(x) for nd in fac.nested.values() for x in ast.walk(nd.node)}
+        rets = [r.value for r in ast.walk(fac.node) if isinstance(r, ast.Return) and r.value is not None and id(r) not in inner_nodes]
+        if len(rets) != 1 or not isinstance(rets[0], ast.Name) or rets[0].id not in fac.nested or not fac.params:
+            return None
+        return fac.nested[rets[0].id], fac.params[0]
+
+    for st in mod.tree.body:
+        if isinstance(st, ast.For) and isinstance(st.target, ast.Name):
+            names = table(st.iter)
+            if names is None:
+                continue
+            for c in ast.walk(st):
+                if isinstance(c, ast.Call) and isinstance(c.func, ast.Name) and c.func.id == "setattr" and len(c.args) == 3 \
+                        and ast.unparse(c.args[0]) == cls_name and ast.unparse(c.args[1]) == st.target.id:
+                    mb = made_by(c.args[2])
+                    if mb is not None and c.args[2].args and ast.unparse(c.args[2].args[0]) == st.target.id:
+                        for n in names:
+                            out[n] = mb
+        elif isinstance(st, ast.Expr) and isinstance(st.value, ast.Call) and isinstance(st.value.func, ast.Name) and st.value.func.id == "setattr" \
+                and len(st.value.args) == 3 and ast.unparse(st.value.args[0]) == cls_name and isinstance(st.value.args[1], ast.Constant):
+            mb = made_by(st.value.args[2])
+            if mb is not None and isinstance(st.value.args[2].args[0], ast.Constant) and st.value.args[2].args[0].value == st.value.args[1].value:
+                out[st.value.args[1].value] = mb
+        elif isinstance(st, ast.Assign) and len(st.targets) == 1 and isinstance(st.targets[0], ast.Attribute) and ast.unparse(st.targets[0].value) == cls_name:
+            mb = made_by(st.value)
+            if mb is not None and isinstance(st.value.args[0], ast.Constant) and st.value.args[0].value == st.targets[0].attr:
+                out[st.targets[0].attr] = mb
+    return out
+
+
+def _generated_delegations(fn, name_param):
+    """in a generated override: calls of `getattr(super(...) | np.ndarray, <name_param>)`, directly or through a local"""
+    def is_lookup(e):
+        return isinstance(e, ast.Call) and isinstance(e.func, ast.Name) and e.func.id == "getattr" and len(e.args) >= 2 \
+            and ast.unparse(e.args[1]) == name_param and (
+                (isinstance(e.args[0], ast.Call) and isinstance(e.args[0].func, ast.Name) and e.args[0].func.id == "super")
+                or ast.unparse(e.args[0]).endswith("ndarray"))
+
+    bound = {st.targets[0].id for st in ast.walk(fn) if isinstance(st, ast.Assign) and len(st.targets) == 1 and isinstance(st.targets[0], ast.Name) and is_lookup(st.value)}
+    out = []
+    for c in ast.walk(fn):
+        if isinstance(c, ast.Call) and (is_lookup(c.func) or (isinstance(c.func, ast.Name) and c.func.id in bound)):
+            out.append(c)
+    return out
+
+
 def check(run):
     ix = Index(run.repo)
     run.analysed.update(ix.stats())
@@ -95,6 +163,12 @@ def check(run):
     run.assume(f"ndarray method table read from the installed numpy {np_version} (the numpy trimesh runs on)")
     run.floor("numpy in-place operators", len(inplace), 13)
     defined = dict(ta.methods)
+    generated = _generated_overrides(ix, mod, "TrackedArray")
+    for n_, (fi_, _) in generated.items():
+        defined.setdefault(n_, fi_)
+    if generated:
+        run.assume(f"{len(generated)} TrackedArray overrides are installed from a table of names after the class body ({sorted(generated)[:4]}...): "
+                   f"each is analysed as the function its factory returns, with the method name bound")
     run.floor("TrackedArray overrides", len(defined), 20)
 
     # ---- R1 coverage
@@ -156,7 +230,8 @@ def check(run):
     for name, fi in sorted(defined.items()):
         if name in ("__array_finalize__", "__array_wrap__", "__hash__"):
             continue
-        dele = _delegations(fi.node)
+        gen = generated.get(name) if name not in ta.methods else None
+        dele = _generated_delegations(fi.node, gen[1]) if gen else _delegations(fi.node)
         if not dele:
             continue
         n_r2 += 1
@@ -172,7 +247,7 @@ def check(run):
             any(cfg.dominates(f, d) and f != d for f in flag_nodes) for d in dele_nodes
         ) and any(cfg.dominates(f, cfg.exit) for f in flag_nodes)
         # the delegated method must be the overridden one
-        same = all(d.func.attr == name for d in dele)
+        same = True if gen else all(d.func.attr == name for d in dele)  # a generated override looks the method up by its own name
         run.instance("R2", fi.where, f"override {name}: flag store dominates delegation={ok}, delegates to same name={same}", ok and same)
         if not ok:
             run.violation("R2", fi.where,
